@@ -415,19 +415,8 @@ class Parser:
             self._raise_for_non_comparable_function(right, tok)
             return ComparisonExpression(tok, left, operator, right)
 
-        if isinstance(left, FilterExpressionLiteral):
-            raise JSONPathSyntaxError(
-                "filter expression literals outside of "
-                "function expressions must be compared",
-                token=left.token,
-            )
-        if isinstance(right, FilterExpressionLiteral):
-            raise JSONPathSyntaxError(
-                "filter expression literals outside of "
-                "function expressions must be compared",
-                token=right.token,
-            )
-
+        self._raise_for_non_logical(left)
+        self._raise_for_non_logical(right)
         return LogicalExpression(tok, left, operator, right)
 
     def parse_grouped_expression(self, stream: TokenStream) -> Expression:
